@@ -38,6 +38,58 @@ def lean_ops(case):
     return sc.api_ops(case)
 
 
+def _with_subtotals(case, ctx, findings):
+    """the same laws on INSERTED (non-difference) subtotal cells, judged on the implementation's own counts and
+    bases (whose respondent-level meaning is C02's / C04's business): proportion = count / base, within [0,1],
+    NaN exactly where the base is zero, percentages = 100 x."""
+    import copy
+    import random
+    vars_, survey = sc.load(case)
+    rng = random.Random(repr(case["survey"][:2]) + str(len(survey)))
+    kinds = sc.kinds_of(vars_)
+    if len(vars_) == 1 and vars_[0].kind == "ca":
+        return
+    dims = [vars_[0]] if len(kinds) == 1 else vars_[-2:]
+    tr = {}
+    for name, v in zip(["rows_dimension", "columns_dimension"], dims):
+        ins = sc.gen_insertions(rng, v, allow_diff=False, allow_hide=False)
+        if ins:
+            tr[name] = {"insertions": ins}
+    if not tr:
+        return
+    ctx.count("subtotal_cases")
+    cube = sc.make_cube(case, transforms=copy.deepcopy(tr))
+    for k, part in enumerate(cube.partitions):
+        if len(kinds) >= 2:
+            triples = [("row_proportions", "row_weighted_bases", "row_percentages"),
+                       ("column_proportions", "column_weighted_bases", "column_percentages"),
+                       ("table_proportions", "table_weighted_bases", "table_percentages")]
+        else:
+            triples = [("table_proportions", "weighted_bases", "table_percentages")]
+        counts = common.call_impl(lambda: part.counts)
+        for pn, bn, pcn in triples:
+            props = common.call_impl(lambda: getattr(part, pn))
+            bases = common.call_impl(lambda: getattr(part, bn))
+            pcts = common.call_impl(lambda: getattr(part, pcn))
+            if not (isinstance(props, list) and isinstance(bases, list) and isinstance(counts, list)):
+                findings.append({"kind": "spec", "locus": "subtotals.%s.raises" % pn, "detail": "%r %r" % (props, bases)})
+                continue
+            flat = lambda x: [y for r in x for y in r] if x and isinstance(x[0], list) else list(x)
+            P, B, C, PC = flat(props), flat(bases), flat(counts), flat(pcts) if isinstance(pcts, list) else None
+            if not (len(P) == len(B) == len(C)):
+                findings.append({"kind": "spec", "locus": "subtotals.%s.extent" % pn, "detail": "%d %d %d" % (len(P), len(B), len(C))})
+                continue
+            for idx, (p, b, c) in enumerate(zip(P, B, C)):
+                exp = _div(c, b)
+                if not common.num_close(p, exp):
+                    findings.append({"kind": "spec", "locus": "subtotals.%s.count-over-base" % pn,
+                                     "detail": "partition %d flat cell %d: %r but count %r / base %r; transforms %r" % (k, idx, p, c, b, tr)})
+                    break
+                if PC is not None and not common.num_close(PC[idx], 100 * p if p == p else p):
+                    findings.append({"kind": "spec", "locus": "subtotals.%s.x100" % pcn, "detail": "%r vs %r" % (PC[idx], p)})
+                    break
+
+
 def _div(c, b):
     if b == 0:
         return float("nan") if c == 0 else math.copysign(float("inf"), c)
@@ -127,6 +179,10 @@ def evaluate(case, louts, ctx):
                 findings.append({"kind": "spec", "locus": "strand.table_proportions.sum-to-one", "detail": repr(impl)})
         if any(0 < x < 1 for x in expect if not math.isnan(x)):
             key = ("x".join(kinds), tuple(counts), len(survey))
+    try:
+        _with_subtotals(case, ctx, findings)
+    except Exception as e:  # noqa
+        raise
     return findings, key
 
 
